@@ -82,6 +82,31 @@ def test_fsync_without_flush_syncs_nothing():
     assert _targets(states) == {OLD} | {NEW[:i] for i in range(len(NEW) + 1)}
 
 
+def test_a_file_moved_in_from_elsewhere_is_a_copy():
+    """a temporary file outside the modelled directory lives on another filesystem: rename / replace refuse (EXDEV), shutil.move copies in place"""
+    import errno
+    import shutil
+    import tempfile
+
+    def save(t):
+        fd, tmp = tempfile.mkstemp(suffix=".tmp")
+        with open(fd, "w", encoding="utf-8") as fh:
+            fh.write(NEW.decode())
+            fh.flush()
+            os.fsync(fh.fileno())
+        try:
+            os.replace(tmp, t)
+            raise AssertionError("replace across the boundary went through")
+        except OSError as e:
+            assert e.errno == errno.EXDEV
+        shutil.move(tmp, t)
+
+    log, states, _, final = _run(save)
+    assert final == {"f.json": NEW}
+    assert [op[0] for op in log][:2] == ["open", "write"], log
+    assert b"" in _targets(states) and OLD in _targets(states)  # truncated in place: the old content is gone before the new one is there
+
+
 def test_temp_replace_without_fsync_is_not():
     def save(t):
         pathlib.Path(t + ".tmp").write_text(NEW.decode(), encoding="utf-8")
